@@ -202,6 +202,29 @@ def run(ctx: Any, prog: Program) -> None:
                     why = (f'`{U(n)[:80]}` only refuses results that continue below the parent: the relative form of the parent directory itself is exactly ".." '
                            '(no separator), so walking ".." lists the files next to the root')
     if verdict is None:
+        # an idiom that is not enumerated: interpret _resolve_path (engine.minieval; os.path modelled by posixpath) on a small family of
+        # (root, name) pairs.  A name that leaves the root and is not refused is a definite violation; agreement on the family decides nothing.
+        from engine.minieval import MiniEval, Obj, Raised, Unsupported
+        probe_root = '/a/root'
+        outside = ['..', '../..', '../root_other/x', '../root_other', 'sub/../..', '/a', '/', '/a/root_other/x', '../../etc/passwd', 'sub/../../root/../x']
+        inside = ['', 'x', 'sub/x', 'sub/../x', './x', '/a/root/x', '/a/root']
+        try:
+            for nm in outside + inside:
+                me = MiniEval({'os': Obj(sep='/', pardir='..', curdir='.', altsep=None)}, {})
+                try:
+                    me.inline(rp, [nm], {}, Obj(path=probe_root, constrain_path=True))
+                    refused = False
+                except Raised:
+                    refused = True
+                if nm in outside and not refused:
+                    verdict, why = False, f'interpreted on root {probe_root!r}: the name {nm!r} leaves the root and is not refused'
+                    break
+                if nm in inside and refused:
+                    verdict, why = False, f'interpreted on root {probe_root!r}: the name {nm!r} stays inside the root and is refused'
+                    break
+        except Unsupported:
+            pass
+    if verdict is None:
         # not a verdict on the containment test - but the clauses below (what is normalised, compared and returned) are still decided
         ctx.shape('C18.S1', False, fs, guards[0], f'_resolve_path: containment test `{U(test)[:140]}` is not one of the enumerated idioms', func='RawFileSystem._resolve_path', text='containment test')
     else:
@@ -278,6 +301,8 @@ def run(ctx: Any, prog: Program) -> None:
 
 
 MUTANTS = [
+    {'id': 'containment_by_zipped_components', 'file': 'filesys.py', 'find': "        if self.constrain_path and abs_path != self.path and not abs_path.startswith(os.path.join(self.path, '')):\n            raise RootEscapeError(self.path, path)", 'replace': "        if self.constrain_path and any(ours != theirs for ours, theirs in zip(self.path.split(os.sep), abs_path.split(os.sep))):\n            raise RootEscapeError(self.path, path)", 'expect': 'C18.S1'},
+    {'id': 'ok_containment_by_component_prefix', 'file': 'filesys.py', 'find': "        if self.constrain_path and abs_path != self.path and not abs_path.startswith(os.path.join(self.path, '')):\n            raise RootEscapeError(self.path, path)", 'replace': "        if self.constrain_path and abs_path.split(os.sep)[:len(self.path.split(os.sep))] != self.path.split(os.sep):\n            raise RootEscapeError(self.path, path)", 'expect': None, 'refuse_ok': True},
     {'id': 'ok_resolve_with_normpath_of_join', 'file': 'filesys.py', 'find': "        abs_path = os.path.abspath(os.path.join(self.path, path))\n", 'replace': "        abs_path = os.path.normpath(os.path.join(self.path, path))\n", 'expect': None},
     {'id': 'resolve_path_lru_cached', 'file': 'filesys.py', 'find': "    def _resolve_path(self, path: str) -> str:", 'replace': "    @__import__('functools').lru_cache(maxsize=8192)\n    def _resolve_path(self, path: str) -> str:", 'expect': 'C18.S3'},
     {'id': 'containment_on_relative_name', 'file': 'filesys.py', 'find': "        abs_path = os.path.abspath(os.path.join(self.path, path))\n        # Compare with a trailing separator, so sibling folders like \"root_other\" don't match \"root\".\n        if self.constrain_path and abs_path != self.path and not abs_path.startswith(os.path.join(self.path, '')):\n            raise RootEscapeError(self.path, path)\n        return abs_path", 'replace': "        rel_path = os.path.normpath(path)\n        if self.constrain_path and (rel_path == os.pardir or rel_path.startswith(os.pardir + os.sep)):\n            raise RootEscapeError(self.path, path)\n        return os.path.normpath(os.path.join(self.path, rel_path))", 'expect': 'C18.S3'},
